@@ -271,3 +271,390 @@ pub fn crash_probes(fslog: &[FsRec], dirkey: &str, cfg: &Cfg, opts: &Value, seed
     let _ = shim::unobserved(|| std::fs::remove_dir_all(&root));
     out
 }
+
+/// Final (quiescent) image of the directory: every linked file with its full content.
+pub fn final_image(fslog: &[FsRec], dirkey: &str) -> BTreeMap<String, Vec<u8>> {
+    let st = image::rebuild(fslog, dirkey, u64::MAX);
+    st.into_iter().filter(|(n, f)| f.linked && n != "LOCK").map(|(n, f)| (n, f.content)).collect()
+}
+
+fn run_image_probe(root: &str, tag: &str, files: &BTreeMap<String, Vec<u8>>, cfg: &Cfg, tr: bool, do_cont: bool, newest: &str) -> Value {
+    let dir = format!("{}/{}", root, tag);
+    image::materialize(&dir, files);
+    let before = image::dir_digest(&dir);
+    let mut c2 = cfg.clone();
+    c2.tr = Some(tr);
+    let r = open_and_continue(&dir, &c2, do_cont);
+    let res = r["res"].as_str().unwrap_or("").to_string();
+    let after = image::dir_digest(&dir);
+    let same = before == after;
+    // every file other than the newest byte-identical afterwards?
+    let same_others = before.iter().filter(|(n, _)| n != newest).all(|(n, c)| after.iter().any(|(n2, c2)| n2 == n && c2 == c));
+    let _ = shim::unobserved(|| std::fs::remove_dir_all(&dir));
+    let mut ev = json!({"res": res, "rc": rc_of(&res), "cls": res.rsplit(':').next().unwrap_or(""), "tr": tr,
+                        "obs": r["obs"], "files_after": r["files_after"], "same": same, "same_others": same_others});
+    if let Some(c) = r.get("cont") {
+        ev["cont"] = c.clone();
+    }
+    ev
+}
+
+/// C10: the newest chunk cut at byte positions / zero-filled from record boundaries.
+/// opts: {"all_cuts": bool, "max_cuts": n, "cont": bool}
+pub fn tail_probes(fslog: &[FsRec], dirkey: &str, cfg: &Cfg, opts: &Value, seed: u64, pos: u64) -> Vec<ProbeOut> {
+    let mut rng = Rng(seed.wrapping_mul(40503).wrapping_add(77));
+    let files = final_image(fslog, dirkey);
+    let Some((newest, content)) = files.iter().max_by_key(|(n, _)| shim::chunk_of(n)).map(|(n, c)| (n.clone(), c.clone())) else {
+        return vec![];
+    };
+    let ck = shim::chunk_of(&newest);
+    let len = content.len();
+    let bounds = image::record_bounds(&content);
+    let root = scratch_root();
+    let _ = shim::unobserved(|| std::fs::create_dir_all(&root));
+    let max_cuts = opts["max_cuts"].as_u64().unwrap_or(60) as usize;
+    let do_cont = opts["cont"].as_bool().unwrap_or(true);
+    let mut cuts: Vec<usize> = (0..=len).collect();
+    if cuts.len() > max_cuts && !opts["all_cuts"].as_bool().unwrap_or(false) {
+        // all boundaries and their neighbours, plus a random sample
+        let mut keep: Vec<usize> = vec![0, 1, len.saturating_sub(1), len];
+        for b in &bounds {
+            keep.push(*b);
+            keep.push(b.saturating_sub(1));
+            keep.push((*b + 1).min(len));
+            keep.push((*b + 4).min(len));
+        }
+        while keep.len() < max_cuts {
+            keep.push(rng.below(len as u64 + 1) as usize);
+        }
+        keep.sort();
+        keep.dedup();
+        cuts = keep;
+    }
+    let mut out = vec![];
+    let mut n = 0;
+    for x in cuts {
+        for tr in [true, false] {
+            let mut f2 = files.clone();
+            f2.insert(newest.clone(), content[..x].to_vec());
+            let mut ev = run_image_probe(&root, &format!("t{}", n), &f2, cfg, tr, do_cont && tr, &newest);
+            n += 1;
+            ev["e"] = json!("probe");
+            ev["kind"] = json!("tail");
+            ev["ck"] = json!(ck);
+            ev["cut"] = json!(x);
+            ev["zero"] = json!([0, 0]);
+            ev["len"] = json!(len);
+            out.push(ProbeOut { pos, ev });
+        }
+    }
+    // zero tails from every record boundary, a few lengths each
+    let zlens: Vec<usize> = vec![1, 2, 3, 4, 7, 8, 27, 28, 29, 64, 1024, 1025, 33 * 1024];
+    for b in bounds.iter() {
+        let mut ls: Vec<usize> = vec![];
+        let next = bounds.iter().copied().find(|y| *y > *b).unwrap_or(*b);
+        if next > *b {
+            ls.push(next - *b);
+        }
+        for _ in 0..(if opts["all_cuts"].as_bool().unwrap_or(false) { zlens.len() } else { 4 }) {
+            ls.push(zlens[rng.below(zlens.len() as u64) as usize]);
+        }
+        if opts["all_cuts"].as_bool().unwrap_or(false) {
+            ls.extend(zlens.iter().copied());
+        }
+        ls.sort();
+        ls.dedup();
+        for l in ls {
+            for tr in [true, false] {
+                let mut c2 = content[..*b].to_vec();
+                c2.extend(std::iter::repeat_n(0u8, l));
+                let mut f2 = files.clone();
+                f2.insert(newest.clone(), c2);
+                let mut ev = run_image_probe(&root, &format!("z{}", n), &f2, cfg, tr, do_cont && tr, &newest);
+                n += 1;
+                ev["e"] = json!("probe");
+                ev["kind"] = json!("tail");
+                ev["ck"] = json!(ck);
+                ev["cut"] = json!(-1);
+                ev["zero"] = json!([b, l]);
+                ev["len"] = json!(len);
+                out.push(ProbeOut { pos, ev });
+            }
+        }
+    }
+    let _ = shim::unobserved(|| std::fs::remove_dir_all(&root));
+    out
+}
+
+/// Which field of which record a byte position of a chunk file belongs to (layout knowledge, used only to
+/// describe a probe, never to judge it).  Returns (field, record start, record end).
+pub fn classify(content: &[u8], pos: usize) -> (&'static str, usize, usize) {
+    let bounds = image::record_bounds(content);
+    for w in bounds.windows(2) {
+        let (s, e) = (w[0], w[1]);
+        if pos >= s && pos < e {
+            let off = pos - s;
+            if off < 4 {
+                return ("type", s, e);
+            }
+            if pos >= e - 8 {
+                return ("checksum", s, e);
+            }
+            let t = u32::from_be_bytes([content[s], content[s + 1], content[s + 2], content[s + 3]]);
+            return match t {
+                1 => {
+                    if off < 20 {
+                        ("int", s, e)
+                    } else if off < 24 {
+                        ("len_prefix", s, e)
+                    } else {
+                        ("payload", s, e)
+                    }
+                }
+                3 => {
+                    if off == 4 {
+                        ("opt_tag", s, e)
+                    } else {
+                        ("int", s, e)
+                    }
+                }
+                5 => {
+                    // ver, 4 x option<id>, option<string>
+                    let mut q = s + 4;
+                    if pos == q {
+                        return ("ver", s, e);
+                    }
+                    q += 1;
+                    for _ in 0..4 {
+                        if pos == q {
+                            return ("opt_tag", s, e);
+                        }
+                        let some = content[q] != 0;
+                        q += 1;
+                        if some {
+                            if pos < q + 16 {
+                                return ("int", s, e);
+                            }
+                            q += 16;
+                        }
+                    }
+                    if pos == q {
+                        return ("opt_tag", s, e);
+                    }
+                    if content[q] != 0 {
+                        q += 1;
+                        if pos < q + 4 {
+                            return ("len_prefix", s, e);
+                        }
+                        return ("payload", s, e);
+                    }
+                    ("int", s, e)
+                }
+                _ => ("int", s, e),
+            };
+        }
+    }
+    ("beyond", content.len(), content.len())
+}
+
+/// How decoding of the (damaged) record that starts at `rs` ends, following the decoder's read order:
+/// "eof" (it asks for more bytes than the file has), "invalid" (a value or the checksum is rejected).
+/// Layout knowledge used only to describe a probe.
+pub fn decode_outcome(c: &[u8], rs: usize) -> &'static str {
+    let mut q = rs;
+    let need = |q: usize, n: usize| q + n <= c.len();
+    let u32_at = |q: usize| u32::from_be_bytes([c[q], c[q + 1], c[q + 2], c[q + 3]]) as usize;
+    if !need(q, 4) {
+        return "eof";
+    }
+    let t = u32_at(q);
+    q += 4;
+    // Option<(u64,u64)>
+    let opt_id = |q: &mut usize| -> Option<&'static str> {
+        if !need(*q, 1) {
+            return Some("eof");
+        }
+        let tag = c[*q];
+        *q += 1;
+        match tag {
+            0 => None,
+            1 => {
+                if !need(*q, 16) {
+                    return Some("eof");
+                }
+                *q += 16;
+                None
+            }
+            _ => Some("invalid"),
+        }
+    };
+    let string = |q: &mut usize| -> Option<&'static str> {
+        if !need(*q, 4) {
+            return Some("eof");
+        }
+        let n = u32_at(*q);
+        *q += 4;
+        if !need(*q, n) {
+            return Some("eof");
+        }
+        if std::str::from_utf8(&c[*q..*q + n]).is_err() {
+            return Some("invalid");
+        }
+        *q += n;
+        None
+    };
+    match t {
+        0 | 2 | 4 => {
+            if !need(q, 16) {
+                return "eof";
+            }
+            q += 16;
+        }
+        1 => {
+            if !need(q, 16) {
+                return "eof";
+            }
+            q += 16;
+            if let Some(r) = string(&mut q) {
+                return r;
+            }
+        }
+        3 => {
+            if let Some(r) = opt_id(&mut q) {
+                return r;
+            }
+        }
+        5 => {
+            if !need(q, 1) {
+                return "eof";
+            }
+            if c[q] != 1 {
+                return "invalid";
+            }
+            q += 1;
+            for _ in 0..4 {
+                if let Some(r) = opt_id(&mut q) {
+                    return r;
+                }
+            }
+            if !need(q, 1) {
+                return "eof";
+            }
+            let tag = c[q];
+            q += 1;
+            match tag {
+                0 => {}
+                1 => {
+                    if let Some(r) = string(&mut q) {
+                        return r;
+                    }
+                }
+                _ => return "invalid",
+            }
+        }
+        _ => return "invalid",
+    }
+    if !need(q, 8) {
+        return "eof";
+    }
+    "invalid" // a damaged record that parses to its end fails the checksum
+}
+
+/// C09: every (sampled) byte of every complete record altered; every middle chunk removed.
+/// opts: {"max_pos": n, "all_bits": bool}
+pub fn damage_probes(fslog: &[FsRec], dirkey: &str, cfg: &Cfg, opts: &Value, seed: u64, pos: u64) -> Vec<ProbeOut> {
+    let mut rng = Rng(seed.wrapping_mul(69069).wrapping_add(5));
+    let files = final_image(fslog, dirkey);
+    if files.is_empty() {
+        return vec![];
+    }
+    let newest = files.keys().max_by_key(|n| shim::chunk_of(n)).unwrap().clone();
+    let oldest = files.keys().min_by_key(|n| shim::chunk_of(n)).unwrap().clone();
+    let root = scratch_root();
+    let _ = shim::unobserved(|| std::fs::create_dir_all(&root));
+    let max_pos = opts["max_pos"].as_u64().unwrap_or(150) as usize;
+    let all_bits = opts["all_bits"].as_bool().unwrap_or(false);
+    // candidate positions: all bytes of complete records of all files
+    let mut cands: Vec<(String, usize)> = vec![];
+    for (name, c) in files.iter() {
+        let b = image::record_bounds(c);
+        let end = *b.last().unwrap_or(&0);
+        for p in 0..end {
+            cands.push((name.clone(), p));
+        }
+    }
+    let mut chosen: Vec<(String, usize)> = vec![];
+    if cands.len() <= max_pos {
+        chosen = cands;
+    } else {
+        // every length prefix / type / option tag byte is rare: make sure structural bytes are covered
+        for (name, p) in cands.iter() {
+            let f = classify(&files[name], *p).0;
+            if matches!(f, "len_prefix" | "type" | "opt_tag" | "ver") && rng.below(3) == 0 && chosen.len() < max_pos / 2 {
+                chosen.push((name.clone(), *p));
+            }
+        }
+        while chosen.len() < max_pos {
+            chosen.push(cands[rng.below(cands.len() as u64) as usize].clone());
+        }
+    }
+    let mut out = vec![];
+    let mut n = 0;
+    for (name, p) in chosen {
+        let content = &files[&name];
+        let old = content[p];
+        let mut vals: Vec<u8> = vec![];
+        if all_bits {
+            for b in 0..8 {
+                vals.push(old ^ (1 << b));
+            }
+            vals.push(0);
+            vals.push(0xFF);
+            vals.push(rng.below(256) as u8);
+        } else {
+            vals.push(old ^ (1 << rng.below(8)));
+            vals.push(old ^ (1 << rng.below(8)));
+            vals.push(if rng.below(2) == 0 { 0 } else { 0xFF });
+        }
+        vals.sort();
+        vals.dedup();
+        vals.retain(|v| *v != old);
+        let (field, rs, _re) = classify(content, p);
+        for v in vals {
+            let mut c2 = content.clone();
+            c2[p] = v;
+            // does decoding the altered record ask for more bytes than the file has?
+            let past_eof = decode_outcome(&c2, rs) == "eof";
+            let mut f2 = files.clone();
+            f2.insert(name.clone(), c2);
+            let mut ev = run_image_probe(&root, &format!("d{}", n), &f2, cfg, true, false, &newest);
+            n += 1;
+            ev["e"] = json!("probe");
+            ev["kind"] = json!("damage");
+            ev["ck"] = json!(shim::chunk_of(&name));
+            ev["at"] = json!(p);
+            ev["old"] = json!(old);
+            ev["new"] = json!(v);
+            ev["field"] = json!(field);
+            ev["past_eof"] = json!(past_eof);
+            ev["newest"] = json!(name == newest);
+            out.push(ProbeOut { pos, ev });
+        }
+    }
+    // every middle chunk removed
+    for name in files.keys() {
+        if *name == newest || *name == oldest {
+            continue;
+        }
+        let mut f2 = files.clone();
+        f2.remove(name);
+        let mut ev = run_image_probe(&root, &format!("m{}", n), &f2, cfg, true, false, &newest);
+        n += 1;
+        ev["e"] = json!("probe");
+        ev["kind"] = json!("missing");
+        ev["ck"] = json!(shim::chunk_of(name));
+        out.push(ProbeOut { pos, ev });
+    }
+    let _ = shim::unobserved(|| std::fs::remove_dir_all(&root));
+    out
+}
